@@ -132,7 +132,7 @@ pub mod reqwest {
                 old(w).net.permit, //@C09.send_needs_limiter_pass
                 !self.insecure@ && self.roots@ == old(w).net.trust_roots, //@C18.send_trusted_client
                 self.is_post@ ==> (old(w).net.built matches Some(b) && b.1 == self.url@ && b.2 == self.body@), //@C04.body_bound_to_url
-                self.is_post@ ==> (old(w).net.latest_nonce matches Some(n) ==> old(w).net.built matches Some(b) && b.0 == n), //@C04.newest_nonce
+                self.is_post@ ==> (old(w).net.latest_nonce matches Some(n) ==> old(w).net.built matches Some(b) && b.0 == n), //@C04.newest_nonce,C08.retransmission_uses_newest_nonce
             ensures
                 final(w).clock >= old(w).clock, final(w).admissions == old(w).admissions, final(w).fs == old(w).fs,
                 final(w).net.permit == false,
